@@ -43,6 +43,7 @@ type Program struct {
 	ModSets  map[*types.Func]map[string]bool
 	AddrTaken map[*types.Func]bool
 	fvSet     map[string]bool
+	allWritten map[string]bool
 	condEdge  func(callee *types.Func, dk, lk map[string]bool)
 	globals   map[*types.Var]*globalInitInfo
 }
